@@ -69,8 +69,8 @@ def run(run):
     all_dis, new_fails = [], []
     for flags in flags_list:
         ins = lexh.load_corpus(PROP) + lexh.gen_exhaustive(info, 2 if (tier_q or flags not in (7, 0)) else 3)
-        ins += lexh.gen_random(info, run.rng, 2500 if tier_q else 20000)
-        ins += lexh.gen_wellformed(run.rng, 1500 if tier_q else 15000)
+        ins += lexh.gen_random(info, run.rng, 2500 if tier_q else 60000)
+        ins += lexh.gen_wellformed(run.rng, 1500 if tier_q else 45000)
         dis, fails = judge(run, "LEX+SPEC base flags=%d" % flags, ins, flags)
         all_dis += dis
         for f in fails:
